@@ -35,7 +35,7 @@ UNIQ = re.compile(u'k[0-9]+z')
 # converter purged) were repaired in /repo by af61005 and e7e9e0f and are ordinary failing signatures now.
 # Still open after af61005: draw:line and draw:g (a group of shapes) hold text too, but are not in odf2moinmoin's
 # CONTAINER_TAGS - a child of office:text is skipped, inside running text draw:g becomes ' {draw:g} ' and draw:line nothing.
-PENDING = set(['m-top-shape-unlisted', 'm-nested-shape-unlisted'])
+PENDING = set()      # (round 6: ten loss classes were pending here until the repairs af61005, e7e9e0f and the draw:line / draw:g follow-up)
 
 
 # ---------------------------------------------------------------- reading the converters' output (expat only)
